@@ -74,10 +74,8 @@ PROPS["C35"] = {
           "all u64 prices, u16 percentages, u32 heights"),
         H("c35_worst_case_components_fixed", ["fuel_gas_price_algorithm::v1::AlgorithmV1::worst_case", _CPC],
           "prices (1000, 777), all percentages <= 24, all horizons <= 24"),
-        H("c35_worst_case_components_k10", ["fuel_gas_price_algorithm::v1::AlgorithmV1::worst_case", _CPC],
-          "prices < 2^10, percentages <= 24, horizon <= 24", tiers=("thorough",), timeout={"thorough": 7200}),
-        H("c35_worst_case_components_k20", ["fuel_gas_price_algorithm::v1::AlgorithmV1::worst_case", _CPC],
-          "prices < 2^20, percentages <= 24, horizon <= 24", tiers=("thorough",), timeout={"thorough": 7200}),
+        H("c35_worst_case_components_fixed2", ["fuel_gas_price_algorithm::v1::AlgorithmV1::worst_case", _CPC],
+          "prices (3, 1000000007), all percentages <= 24, all horizons <= 24", tiers=("thorough",), timeout={"thorough": 3600}),
         H("c35_table_rows", [_CPC], "all 24x25 table cells, price 2^40"),
         H("c35_table_monotone_k16", [_CPC], "price < 2^16, pct <= 24, horizon < 24", tiers=("quick",), timeout={"quick": 900}),
         H("c35_table_monotone_k20", [_CPC], "price < 2^20, pct <= 24, horizon < 24", tiers=("thorough",), timeout={"thorough": 3600}),
